@@ -14,7 +14,6 @@ def marshalKE (group : UInt16) (d : Bytes) : Res Bytes :=
   .ok (put16 group ++ [0, 0] ++ d)
 
 def unmarshalKE (b : Bytes) : Res Payload :=
-  if b.length = 0 then .ok (.ke 0 []) else
   if b.length ≤ 4 then .err else do
     let g ← goU16 b 0
     let d ← goFrom b 4
@@ -25,7 +24,6 @@ def unmarshalKE (b : Bytes) : Res Payload :=
 def marshalT4 (t : UInt8) (d : Bytes) : Res Bytes := .ok ([t, 0, 0, 0] ++ d)
 
 def unmarshalT4 (mk : UInt8 → Bytes → Payload) (b : Bytes) : Res Payload :=
-  if b.length = 0 then .ok (mk 0 []) else
   if b.length ≤ 4 then .err else do
     let t ← goIndex b 0
     let d ← goFrom b 4
@@ -36,7 +34,6 @@ def unmarshalT4 (mk : UInt8 → Bytes → Payload) (b : Bytes) : Res Payload :=
 def marshalT1 (t : UInt8) (d : Bytes) : Res Bytes := .ok ([t] ++ d)
 
 def unmarshalT1 (mk : UInt8 → Bytes → Payload) (b : Bytes) : Res Payload :=
-  if b.length = 0 then .ok (mk 0 []) else
   if b.length ≤ 1 then .err else do
     let t ← goIndex b 0
     let d ← goFrom b 1
@@ -136,7 +133,6 @@ termination_by d.length
 decreasing_by simp only [List.length_drop]; omega
 
 def unmarshalCP (b : Bytes) : Res Payload :=
-  if b.length = 0 then .ok (.cp 0 []) else
   if b.length ≤ 4 then .err else do
     let ct ← goIndex b 0
     let d ← goFrom b 4
